@@ -247,6 +247,58 @@ theorem praj_batch_independent (conv : Int → ℝ) (nb : Nat) (m : Mat ℝ)
     assessBatch conv nb m c sc n jmin t L cs k = assessSingle conv nb m c sc n t L (cs.getD k 1) :=
   praj_batch_independent_of_hcm_batch hcmBatchEqSingleLF conv nb m c sc n jmin t ht L cs hc k hk hj
 
+/-- **Batch independence of the P_RAJ assessment including the construction of the look-up tables** (`tab M`: the table
+`Binned(SeegerBeste)` builds for a point with maximum absolute load `M`; in the batch from the maximum of column `k` of the
+load sequence, alone from the point's own sequence - the same number, `C10.colMaxAbs_batchLoads`).  See
+`C10.assessment_batch_independent_PRAM_tables`. -/
+theorem praj_batch_independent_tables (conv : Int → ℝ) (nb : Nat) (m : Mat ℝ)
+    (c : PrajCurve ℝ) (sc : Solver ℝ) (n jmin : Nat) (tab : Int → Assess.Tables) (htab : ∀ M, (tab M).SecPos) (L cs : List Int)
+    (hc : ∀ c ∈ cs, 0 < c) (k : Nat) (hk : k < cs.length)
+    (hj : ∀ r, assessSingle conv nb m c sc n (tab (Assess.maxAbsI (L.map (cs.getD k 1 * ·)))) L (cs.getD k 1) = some r →
+      r.q < 0 ∨ (jmin : Int) ≤ r.q) :
+    assessBatch conv nb m c sc n jmin (tab (Assess.colMaxAbs (Assess.batchLoads L cs) k)) L cs k
+      = assessSingle conv nb m c sc n (tab (Assess.maxAbsI (L.map (cs.getD k 1 * ·)))) L (cs.getD k 1) := by
+  rw [C10.colMaxAbs_batchLoads L cs k hk]
+  exact praj_batch_independent conv nb m c sc n jmin _ (htab _) L cs hc k hk hj
+
+/-! ## insensitivity to samples that are no reversals -/
+
+/-- **Sample insensitivity of the P_RAJ assessment.**  A sample between its neighbours (an intermediate point, a repeated
+value), a sample appended at the end between the last and the first sample, and a sample put in front between the first
+sample and both the initial load 0 and the last sample change nothing: the maximum absolute load (hence the class grid of
+the binned Seeger-Beste law) is unchanged and the recorded hystereses INCLUDING the running strain extremes
+`epsilon_min_LF / epsilon_max_LF` (fields of `Hyst`) are unchanged (`C04.hcm_insert_nonreversal_interior_code`,
+`C04.hcm_append_nonreversal_code`, `C04.hcm_prepend_nonreversal_code`: equalities of `.recs`), so every quantity of `Result`
+(crack opening states, P_RAJ of every hysteresis, classes, x-bar, lifetime, verdict) is the same. -/
+theorem praj_sample_insensitive (conv : Int → ℝ) (nb : Nat) (m : Mat ℝ) (c : PrajCurve ℝ) (sc : Solver ℝ) (n : Nat)
+    (t : Assess.Tables) :
+    (∀ (pre post : List Int) (x y v : Int), ((x ≤ v ∧ v ≤ y) ∨ (y ≤ v ∧ v ≤ x)) →
+      assessSingle conv nb m c sc n t (pre ++ x :: v :: y :: post) 1 = assessSingle conv nb m c sc n t (pre ++ x :: y :: post) 1) ∧
+    (∀ (s : List Int) (a z v : Int), s.head? = some a → s.getLast? = some z →
+      ((a ≤ v ∧ v ≤ z) ∨ (z ≤ v ∧ v ≤ a)) → (v ≠ a ∨ v = z) →
+      assessSingle conv nb m c sc n t (s ++ [v]) 1 = assessSingle conv nb m c sc n t s 1) ∧
+    (∀ (s : List Int) (a z v : Int), s.head? = some a → s.getLast? = some z →
+      ((0 ≤ v ∧ v ≤ a) ∨ (a ≤ v ∧ v ≤ 0)) → ((z ≤ v ∧ v ≤ a) ∨ (a ≤ v ∧ v ≤ z)) →
+      assessSingle conv nb m c sc n t (v :: s) 1 = assessSingle conv nb m c sc n t s 1) := by
+  have hid : ∀ L : List Int, L.map (1 * ·) = L := by
+    intro L; simp
+  refine ⟨?_, ?_, ?_⟩
+  · intro pre post x y v hv
+    have h1 := C04.hcm_insert_nonreversal_interior_code (Assess.lawOwn nb (Assess.maxAbsI (pre ++ x :: y :: post)) t) pre post x y v hv
+    simp only [assessSingle, hid, Assess.maxAbsI_insert pre post x y v hv]
+    simp only [C04.one] at h1
+    rw [h1]
+  · intro s a z v hs hz hv hne
+    have h1 := C04.hcm_append_nonreversal_code (Assess.lawOwn nb (Assess.maxAbsI s) t) s a z v hs hz hv hne
+    simp only [assessSingle, hid, Assess.maxAbsI_append s a z v hs hz hv]
+    simp only [C04.one] at h1
+    rw [h1]
+  · intro s a z v hs hz h0 hl
+    have h1 := C04.hcm_prepend_nonreversal_code (Assess.lawOwn nb (Assess.maxAbsI s) t) s a z v hs hz h0 hl
+    simp only [assessSingle, hid, C10.maxAbsI_prepend s a v hs h0]
+    simp only [C04.one] at h1
+    rw [h1]
+
 /-! ## N_10 ≤ N_50 ≤ N_90 -/
 
 /-- **N_10 ≤ N_50 ≤ N_90 for P_RAJ** (`N_max_bearable(P_A) = lifetime · 10^((log10 f_2.5% − (0.8 β − 2)·0.155)·|1/d|)`,
